@@ -6,25 +6,29 @@ import sys
 
 
 def main():
-    spec = json.load(open(sys.argv[1]))
-    out = sys.argv[2]
+    """argv[1]: json file with a list of shard specs (run sequentially in this process; each spec has an 'out' path)."""
+    specs = json.load(open(sys.argv[1]))
     import param
     import numbergen
     assert param.__file__.startswith('/repo/') and numbergen.__file__.startswith('/repo/'), param.__file__
     from sx import driver, adapt, known
     adapt.apply_param_stubs()
-    mod = importlib.import_module(spec['module'])
-    fn = getattr(mod, spec['fn'])
-    kf = known.load(spec['property'])
-    res = driver.explore(fn, spec.get('consts', {}), spec['budget_s'],
-                         classify=lambda label, info: known.classify(kf, label, info),
-                         seed=spec.get('seed', 0), path_timeout=spec.get('path_timeout', 10.0),
-                         smt_timeout=spec.get('smt_timeout', 5.0), max_paths=spec.get('max_paths'))
-    res['shard'] = spec['name']
-    tmp = out + '.tmp'
-    with open(tmp, 'w') as f:
-        json.dump(res, f)
-    os.replace(tmp, out)
+    for spec in specs:
+        for k in driver.STATS:
+            driver.STATS[k] = 0 if k != 'solver_s' else 0.0
+        mod = importlib.import_module(spec['module'])
+        fn = getattr(mod, spec['fn'])
+        kf = known.load(spec['property'])
+        res = driver.explore(fn, spec.get('consts', {}), spec['budget_s'],
+                             classify=lambda label, info: known.classify(kf, label, info),
+                             seed=spec.get('seed', 0), path_timeout=spec.get('path_timeout', 10.0),
+                             smt_timeout=spec.get('smt_timeout', 5.0), max_paths=spec.get('max_paths'))
+        res['shard'] = spec['name']
+        out = spec['out']
+        tmp = out + '.tmp'
+        with open(tmp, 'w') as f:
+            json.dump(res, f)
+        os.replace(tmp, out)
 
 
 if __name__ == '__main__':
